@@ -1,4 +1,7 @@
 import DilithiumVerif.Lemmas.Sponge
+import DilithiumVerif.Lemmas.KeccakSpec
+import DilithiumVerif.Lemmas.ShakeSmall
+import DilithiumVerif.Lemmas.OneShot
 /-
   C12 — SHAKE-128 and SHAKE-256 equal FIPS 202 for every input and every call pattern.
   Theorems about the sponge loops of the model (the repaired `keccak_squeeze`), generic in the permutation:
@@ -95,5 +98,38 @@ example : (do
     let (o, _) ← shake256_squeeze 200 200 st
     .ok (o.take 4, (o.drop 196))) = (.ok ([0x48, 0x33, 0x66, 0x60], [0xf6, 0xbf, 0xe1, 0x19]) : Chk (List Nat × List Nat)) := by
   decide +kernel
+
+/-! ## The permutation is Keccak-p[1600, 24] of FIPS 202 -/
+
+open DV.KeccakSpec in
+/-- the code's unrolled round on 25 named lanes = the FIPS 202 round ι(χ(π(ρ(θ(A)))), RC) written on lanes A[x, y]
+    (θ: column parities, ρ: the rotation offsets of Table 2, π: (x, y) ↦ (y, 2x + 3y), χ, ι), for every state and constant -/
+theorem round_is_fips202 (rc : UInt64) (a : St) : halfRound rc a = round rc a := halfRound_eq_round rc a
+
+open DV.KeccakSpec in
+/-- the 24 round constants regenerated from src/fips202.rs are the ones FIPS 202 Algorithm 5 derives from the LFSR
+    x^8 + x^6 + x^5 + x^4 + 1 (bit 2^j − 1 of RC[i] is rc(j + 7i)) -/
+theorem round_constants_are_fips202 : Gen.KECCAKF_ROUNDCONSTANTS = (List.range 24).map rcSpec := round_constants_spec
+
+open DV.KeccakSpec in
+/-- the permutation of the model = 24 FIPS 202 rounds with the FIPS 202 constants, for every state -/
+theorem keccakf_is_fips202 (s : Lanes) :
+    keccakf s = (((List.range 24).map rcSpec).foldl (fun a rc => round rc a) (St.ofLanes s)).toLanes := keccakf_eq_spec s
+
+open DV.ShakeSmall in
+/-- one-shot SHAKE-256 with fewer output bytes than the rate: the answer does not depend on the capacity of the output
+    buffer and has exactly the requested length -/
+theorem shake256_short_output (c1 c2 n : Nat) (inp : List Nat) (len : Nat) (hn : n < R256) (h1 : n ≤ c1) (h2 : n ≤ c2) :
+    shake256 c1 n inp len = shake256 c2 n inp len ∧ ∀ out, shake256 c1 n inp len = .ok out → out.length = n :=
+  ⟨shake256_cap_indep c1 c2 n inp len hn h1 h2, fun out h => shake256_small_length c1 n inp len hn h1 out h⟩
+
+open DV.OneShot in
+/-- **The one-shot and the incremental interfaces agree**: `shake256(out[..n], in)` = init, absorb(in), finalize,
+    squeeze(n), for every input (any length, any number of rate blocks) and every output shorter than the rate (all uses
+    in the crate: 32, 48, 64, 128 bytes). -/
+theorem oneshot_eq_incremental (n : Nat) (inp : List Nat) (hn : n < R256) :
+    shake256 n n inp inp.length =
+      (shake256_absorb KeccakState.init inp inp.length >>= fun st => shake256_finalize st >>= fun st =>
+        shake256_squeeze n n st >>= fun r => .ok r.1) := shake256_oneshot_eq_incremental n inp hn
 
 end DV.C12
